@@ -97,12 +97,12 @@ func effectiveKey(spec RenderSpec) string {
 		if spec.Via == ViaPkg {
 			name = "utf8-heavy"
 		}
-		if spec.Via == ViaAuto && name == "custom" {
+		if (spec.Via == ViaAuto || spec.Via == ViaAutoFn) && name == "custom" {
 			name = "utf8-heavy"
 		}
 		return "text/" + name
 	case FmtHTML:
-		if spec.Via == ViaAuto || spec.Via == ViaPkg {
+		if spec.Via == ViaAuto || spec.Via == ViaAutoFn || spec.Via == ViaPkg {
 			return "html/f0"
 		}
 		return fmt.Sprintf("html/f%d", spec.Flags&3) // the template name does not show in the output
@@ -169,6 +169,12 @@ func (engC14) Gen(r *Rng, s *Script, idx int, tier string) {
 			s.Steps = append(s.Steps, genRegister(r, false, false))
 		}
 	}
+	if level >= 2 && r.Chance(1, 4) {
+		// items changed behind the table's back, with no Update: renders must not re-read them
+		for i := r.Range(1, 3); i > 0; i-- {
+			s.Steps = append(s.Steps, Step{Op: "mutate", A: r.Intn(6)})
+		}
+	}
 	faultPct := 0
 	if r.Chance(1, 2) {
 		faultPct = 25
@@ -179,6 +185,7 @@ func (engC14) Gen(r *Rng, s *Script, idx int, tier string) {
 	if r.Chance(1, 2) {
 		focus = r.Intn(NFormats)
 	}
+	autoFocus := r.Chance(1, 5)
 	for i := 0; i < nr; i++ {
 		st := genRenderStep(r, faultPct)
 		if focus >= 0 && r.Chance(1, 2) {
@@ -186,6 +193,13 @@ func (engC14) Gen(r *Rng, s *Script, idx int, tier string) {
 		}
 		if r.Chance(1, 3) {
 			st.C = ViaReused
+		}
+		if autoFocus && r.Chance(1, 2) {
+			// the auto routes, alternating the bare "texttable" style with named decorations
+			st.A, st.C = FmtText, []int{ViaAuto, ViaAutoFn}[r.Intn(2)]
+			if r.Chance(1, 2) {
+				st.B, st.D = 3, 2
+			}
 		}
 		s.Steps = append(s.Steps, st)
 	}
